@@ -861,6 +861,12 @@ class SymExec:
         fb = freeze(b) if not isinstance(b, (ProdVal, Closure)) else None
         if fb is not None and ('attr', fb, name) in self.overrides:
             return self.overrides[('attr', fb, name)]
+        if fb == ('const', None):
+            # attribute access on None: AttributeError, as CPython raises it
+            self.emit('attr_on_none', node, attr=name)
+            exc = ('call', self.fresh(), ('ref', 'builtin', 'AttributeError'), (('const', "'NoneType' object has no attribute %r" % name),), ())
+            self.emit('raise', node, exc=exc, implicit=True)
+            raise _Raise(exc, node)
         if isinstance(b, tuple) and b and b[0] == 'ref':
             r = self.facts.attr_of((b[1], b[2]), name)
             if r[0] != 'unbound':
